@@ -148,16 +148,36 @@ impl Report {
     }
 }
 
+thread_local! {
+    static LAST_PANIC_AT: std::cell::RefCell<Option<String>> = const { std::cell::RefCell::new(None) };
+}
+
+/// Replace the default panic hook (which prints a backtrace per panic) by one that only remembers
+/// where the panic happened; `catch` appends that to the message.
+pub fn install_quiet_panic_hook() {
+    std::panic::set_hook(Box::new(|info| {
+        let at = info.location().map(|l| format!("{}:{}", l.file(), l.line()));
+        LAST_PANIC_AT.with(|c| *c.borrow_mut() = at);
+    }));
+}
+
 /// Run `f`, turning a panic into `Err(message)`.
 pub fn catch<R>(f: impl FnOnce() -> R) -> Result<R, String> {
     match std::panic::catch_unwind(std::panic::AssertUnwindSafe(f)) {
         Ok(r) => Ok(r),
-        Err(e) => Err(if let Some(s) = e.downcast_ref::<&str>() {
-            s.to_string()
-        } else if let Some(s) = e.downcast_ref::<String>() {
-            s.clone()
-        } else {
-            "panic (non-string payload)".into()
-        }),
+        Err(e) => {
+            let msg = if let Some(s) = e.downcast_ref::<&str>() {
+                s.to_string()
+            } else if let Some(s) = e.downcast_ref::<String>() {
+                s.clone()
+            } else {
+                "panic (non-string payload)".into()
+            };
+            let at = LAST_PANIC_AT.with(|c| c.borrow_mut().take());
+            Err(match at {
+                Some(a) => format!("{msg} [at {a}]"),
+                None => msg,
+            })
+        }
     }
 }
